@@ -64,6 +64,9 @@ def cases(tier):
     for iv in (INTERVALS_T if tier == "thorough" else INTERVALS):
         for off in (OFFSETS_T if tier == "thorough" else OFFSETS):
             yield {"k": "sampled", "iv": str(iv), "off": None if off is None else str(off), "kr": krange}
+    # offsets that are huge compared with the sampling interval (all dyadic: the reference stays exact)
+    for iv, off in ((Fr(1, 8), Fr(4096)), (Fr(1, 8), Fr(-4096)), (Fr(1, 1024), Fr(1000)), (Fr(1, 1024), Fr(-250))):
+        yield {"k": "sampled", "iv": str(iv), "off": str(off), "kr": krange}
     for iv in NONDYADIC_IV:
         for off in NONDYADIC_OFF:
             yield {"k": "roundtrip", "iv": iv, "off": off, "n": 2000 if tier == "thorough" else 120}
